@@ -18,6 +18,8 @@ pub mod c11;
 pub mod c18;
 pub mod c16;
 pub mod c19;
+pub mod c15;
+pub mod c17;
 pub mod c20;
 
 pub fn run(prop: &str, ctx: &mut Ctx) -> Option<Report> {
@@ -39,6 +41,8 @@ pub fn run(prop: &str, ctx: &mut Ctx) -> Option<Report> {
         "C18" => Some(c18::run(ctx)),
         "C16" => Some(c16::run(ctx)),
         "C19" => Some(c19::run(ctx)),
+        "C15" => Some(c15::run(ctx)),
+        "C17" => Some(c17::run(ctx)),
         "C20" => Some(c20::run(ctx)),
         _ => None,
     }
